@@ -87,3 +87,31 @@ def strip_wrappers(t, names=('list', 'tuple', 'array', 'asarray', 'Path',
             and call_name(t) in names and t[2]:
         t = t[2][0]
     return t
+
+
+def lt_form(t):
+    """orientation-free reading of an ordering test:
+    ('Lt' | 'LtE', small, big) for  small < big / small <= big, however
+    it is spelled (a > b, not (a <= b), ...); None for anything else"""
+    neg = False
+    while isinstance(t, tuple) and t and t[0] == 'unop' and t[1] == 'Not':
+        neg = not neg
+        t = t[2]
+    if not (isinstance(t, tuple) and t and t[0] == 'cmp'
+            and len(t[1]) == 1 and len(t[3]) == 1):
+        return None
+    op, a, b = t[1][0], t[2], t[3][0]
+    if op == 'Lt':
+        r = ('Lt', a, b)
+    elif op == 'LtE':
+        r = ('LtE', a, b)
+    elif op == 'Gt':
+        r = ('Lt', b, a)
+    elif op == 'GtE':
+        r = ('LtE', b, a)
+    else:
+        return None
+    if neg:
+        # not (x < y)  ==  y <= x
+        r = ('LtE' if r[0] == 'Lt' else 'Lt', r[2], r[1])
+    return r
